@@ -22,6 +22,11 @@ registry. For every sequence:
   ``TestSuiteChromosome`` objects (sequences of length <= 3: every ordered
   sequence; length 4: the sorted arrangement of every multiset against each of its
   sub-multisets);
+* lifetime leg: for every ordered pair and triple of alphabet tests the first one is
+  analysed through SHORT-LIVED result objects (copies, and fresh executions), which are
+  dropped before fresh results of the others are analysed: the merge must be that of the
+  traces handed in, whatever was analysed and freed before (re-executing a chromosome
+  replaces its result, so results die all the time in the real pipeline);
 * a side leg merges traces that carry executed instructions and executed assertions
   and checks that every assertion still points at its own instruction.
 """
